@@ -579,9 +579,8 @@ func (m *Machine) Apply(act Act) error {
 	case "SetNonce":
 		s.SetNonce(addr, uint64(act.V), tracing.NonceChangeUnspecified)
 	case "SetCode":
-		// both EVM call sites (EIP-7702 authorisations, contract deployment) have inspected
-		// the current code of the account before they replace it
-		s.GetCode(addr)
+		// deliberately WITHOUT reading the code first: the journal must record the account's code even
+		// if this state object has not loaded it yet (finding C13-F1, fixed in /repo 986a824788)
 		s.SetCode(addr, Code(int(act.V)), tracing.CodeChangeUnspecified)
 	case "SetState":
 		s.SetState(addr, slot, Val(act.V))
